@@ -189,6 +189,29 @@ def run(R):
             R.ok('C16.PRV.2', inst, P.path_of(SV), text)
         else:
             R.fail('C16.PRV.2', inst, SV, cname, f'well-known component {cname} is not Component.from_str({text!r})', P.path_of(SV))
+    # ------------------------------------------------------------------ PRV.3 key locator of the issuing signer
+    R.ob('C16.PRV.3', 'every key-based signer writes a fresh KeyLocator naming its currently configured key_locator_name')
+    nsig = 0
+    for q, f in sorted(P.funcs.items()):
+        if not (q.startswith('ndn.security.signer.') and q.endswith('.write_signature_info')):
+            continue
+        cx = ctx(R, q)
+        stores = {}
+        for n in cx.cfg.nodes:
+            if n.kind == 'stmt' and isinstance(n.ast, ast.Assign):
+                for t in n.ast.targets:
+                    stores.setdefault(ast.unparse(t), []).append(ast.unparse(n.ast.value))
+        st = stores.get('signature_info.signature_type', [''])[0]
+        if st.endswith(('DIGEST_SHA256', 'NULL')):
+            continue
+        nsig += 1
+        inst = f'{q} :: key locator'
+        if stores.get('signature_info.key_locator') == ['KeyLocator()'] and stores.get('signature_info.key_locator.name') == ['self.key_locator_name']:
+            R.ok('C16.PRV.3', inst, site(cx, cx.f.node))
+        else:
+            R.fail('C16.PRV.3', inst, q, 'def write_signature_info', 'the signature does not name the key locator currently configured in the signer: '
+                   f'key_locator={stores.get("signature_info.key_locator")}, name={stores.get("signature_info.key_locator.name")}', site(cx, cx.f.node))
+    R.need(nsig >= 4, f'only {nsig} key-based signers found')
     # ------------------------------------------------------------------ FLD.1
     R.ob('C16.FLD.1', 'certificate models: SignatureInfo at 0x16 in the Data position, ValidityPeriod 0xFD{0xFE,0xFF}, extension after; '
                       'parse_certificate checks the outer type')
